@@ -689,7 +689,7 @@ def scenario_text(sid, tag, cfg, argv, prog="prog", as_string=None):
             o.append("sep=%d" % ord(a.sep))
         if a.sort:
             o.append("sort")
-        if a.uniqueerr:
+        if a.unique and a.uniqueerr:
             o.append("uniqueerr")
         elif a.unique:
             o.append("unique")
